@@ -94,10 +94,10 @@ def run(tier):
             st = o["status"]
             msgs = o.get("msgs", [])
             if kind == "free":
-                ck.cell(["free", meta["profile"], (meta["foreign"] or "-").split("(")[0].split(" ")[0], backend], nontrivial=True)
+                ck.cell(["free", meta["profile"], re.split(r"[(\[{ ]", meta["foreign"] or "-")[0] + ("[]" if "[" in (meta["foreign"] or "") else "{}" if "{" in (meta["foreign"] or "") else ""), backend], nontrivial=True)
                 if st != "ok":
                     what = norm(msgs[-1]) if msgs else (o.get("msg", "")[:60] + "|" + o.get("func", ""))
-                    nv = bool(meta["foreign"]) and ("=" in (meta["foreign"] or "")) and "(" not in meta["foreign"]
+                    nv = bool(meta["foreign"]) and ("=" in (meta["foreign"] or "")) and not re.search(r"[(\[{]", meta["foreign"])
                     sig = ("valid_rejected|name_value_attribute" if nv else f"valid_rejected|{st}|{what}")
                     ck.violation(sig, dict(input=src, outcome=o, backend=backend, foreign=meta["foreign"]))
                 elif len(ck.samples) < 2:
